@@ -482,3 +482,21 @@ func (c *fctx) funcValueTerm(fn *types.Func, at ast.Node) string {
 	}
 	return fmt.Sprintf("(fun %s => do %s <- %s %s;; Ret %s)", strings.Join(ps, " "), pat, head, strings.Join(ps, " "), tuple(all))
 }
+
+// inoutTypes: the Gallina types of the in-out parameters of fi, in order.
+func (t *Translator) inoutTypes(fi *funcInfo) []string {
+	var out []string
+	if fi.obj == nil {
+		return out
+	}
+	sig := fi.obj.Type().(*types.Signature)
+	for i, io := range fi.inout {
+		if io {
+			if len(fi.gwrites) > 0 {
+				t.fail(fi.decl, "in-out slice parameter of %s together with written package-level state", fi.goName)
+			}
+			out = append(out, t.typeOf(sig.Params().At(i).Type(), fi.decl).coq())
+		}
+	}
+	return out
+}
